@@ -215,8 +215,13 @@ func DriveMain(propID, tier string, seed uint64, root, bin string) int {
 					// directly (a tree on which everything hangs must not stall the check)
 					var v *ViolationRec
 					if isolated < 2 {
-						isolated++
 						v = d.isolate(cur, code)
+						if v != nil {
+							// (only a suspect that did not terminate alone either counts:
+							// on a loaded machine slow but terminating cases can be
+							// suspected any number of times, each is re-run alone)
+							isolated++
+						}
 					} else {
 						dump, _ := os.ReadFile(filepath.Join(dir, fmt.Sprintf("shard-%d.cur.dump", k)))
 						v = &ViolationRec{Property: propID, Tier: tier, Seed: seed, Case: cur.Case, Prog: cur.Prog, Doc: cur.Doc,
